@@ -118,3 +118,26 @@ def overrides_validate_args(cls):
         if "validate_args" in vars(base):
             return True
     return False
+
+
+def touch_base_classes():
+    """Use the public class-level API of every NON-exported Aggregate class (Aggregate itself, the TrnRq/TrnRs/SyncRqList/... bases,
+    mixins) before anything else: whatever a base class computes or caches for itself must not leak into its subclasses.
+    Returns the number of classes touched; nothing here is judged."""
+    import sys
+    from ofxtools.models.base import Aggregate
+
+    seen = []
+    for modname, mod in list(sys.modules.items()):
+        if not modname.startswith("ofxtools.models") or mod is None:
+            continue
+        for name, obj in list(vars(mod).items()):
+            if inspect.isclass(obj) and issubclass(obj, Aggregate) and obj not in seen and name != name.upper():
+                seen.append(obj)
+    for obj in [Aggregate] + seen:
+        for attr in ("spec", "elements", "subaggregates", "unsupported", "spec_no_listaggregates", "listitems", "listaggregates", "listelements"):
+            try:
+                getattr(obj, attr)
+            except Exception:  # noqa
+                pass
+    return len(seen) + 1
